@@ -47,6 +47,7 @@ class ProviderMdibMethods:
                 descr_container = descr_cls(handle=uuid.uuid4().hex, parent_handle=system_context_descriptor.Handle)
                 descr_container.SafetyClassification = mdib.data_model.pm_types.SafetyClassification.INF
                 mdib.descriptions.add_object(descr_container)
+                self.set_source_mds(descr_container)
 
     def ensure_patient_context_descriptor(self):
         """Create a PatientContextDescriptor if there is none in mdib."""
@@ -64,6 +65,7 @@ class ProviderMdibMethods:
                 descr_container = descr_cls(handle=uuid.uuid4().hex, parent_handle=system_context_descriptor.Handle)
                 descr_container.SafetyClassification = mdib.data_model.pm_types.SafetyClassification.INF
                 mdib.descriptions.add_object(descr_container)
+                self.set_source_mds(descr_container)
 
     def set_location(self, sdc_location: SdcLocation,
                      validators: list[InstanceIdentifier] | None = None,
